@@ -200,6 +200,7 @@ int run_gc(const Args& a) {
                 open_readers.fetch_sub(1);
                 hs.end();
                 sessions_done.fetch_add(1);
+                g_progress.fetch_add(1, std::memory_order_relaxed);
             }
         } else if (role == 1) {
             // ---------------- remover / overwriter (retires values); registers created_value_ptr / inserted node
@@ -228,6 +229,7 @@ int run_gc(const Args& a) {
                         yk::remove(hs.ses.tok, storage, k);
                     }
                 }
+                g_progress.fetch_add(1, std::memory_order_relaxed);
                 hs.end();
             }
         } else {
